@@ -20,6 +20,8 @@ def plan(pid, tier, seed):
         runs.append(("drive", lambda: engines.drive(tier, seed)))
     if pid in ("C01", "C02", "C03", "C08", "C09", "C12"):
         runs.append(("storage_mc", lambda: engines.storage_mc(tier, seed)))
+    if pid in ("C01", "C08", "C09", "C12"):
+        runs.append(("tour", lambda: engines.tour(tier, seed)))
     if pid in ("C03",):
         runs.append(("drive-release", lambda: engines.drive(tier, seed, release=True)))
     if pid in ("C01", "C08", "C09", "C10", "C07"):
